@@ -738,6 +738,8 @@ class Transpose(Linop):
             self.iaxes = None
             oshape = ishape[::-1]
         else:
+            axes = tuple(a % len(ishape) for a in axes)
+            self.axes = axes
             self.iaxes = np.argsort(axes)
             oshape = [ishape[a] for a in axes]
 
